@@ -67,6 +67,15 @@ def make_timeout(kind):
     raise ValueError(kind)
 
 
+TRANSPORT_ERRORS = {
+    "ssl-eof": lambda: _real_ssl.SSLEOFError(8, "EOF occurred in violation of protocol (_ssl.c:2427)"),
+    "ssl-badmac": lambda: _real_ssl.SSLError(1, "[SSL: DECRYPTION_FAILED_OR_BAD_RECORD_MAC] decryption failed or bad record mac (_ssl.c:2580)"),
+    "ssl-zero-return": lambda: _real_ssl.SSLZeroReturnError(6, "TLS/SSL connection has been closed (EOF) (_ssl.c:2427)"),
+    "etimedout": lambda: OSError(110, "Connection timed out"),
+    "ehostunreach": lambda: OSError(113, "No route to host"),
+}
+
+
 class ScriptSock:
     """A scripted stream socket.
 
@@ -166,6 +175,10 @@ class ScriptSock:
         if kind == "reset":
             self.log.append(("reset", self.cursor))
             raise ConnectionResetError(104, "Connection reset by peer")
+        if kind in TRANSPORT_ERRORS:
+            # other errors of the transport itself (TLS layer, kernel), raised with the argument shapes the real modules use
+            self.log.append((kind, self.cursor))
+            raise TRANSPORT_ERRORS[kind]()
         if kind == "block":
             # a blocking socket without timeout would never return: flag it, then fail the call
             self.log.append(("blocked-forever", self.cursor))
